@@ -1142,7 +1142,13 @@ def _create_dataclass_instance(
     # None.
     # TODO: (BUG!) This doesn't distinguish the case where the defaults are passed via the
     # command-line from the case where no arguments are passed at all!
-    if wrapper.optional and wrapper.default is None:
+    # NOTE: the default can also come from the field itself (e.g. `default_factory=Foo`) or from the
+    # default of an enclosing dataclass (`wrapper.defaults`): the member is only `None` by default
+    # when all of those are `None` too.
+    default_is_none = wrapper.default is None and all(
+        default in (None, argparse.SUPPRESS) for default in wrapper.defaults
+    )
+    if wrapper.optional and default_is_none:
         for field_wrapper in wrapper.fields:
             arg_value = constructor_args[field_wrapper.name]
             default_value = field_wrapper.default
